@@ -72,5 +72,6 @@ def request_bundles_from_list_of_dicts(
             signers=signers_from_list(bundle["value"].get("Signer", [])),
         )
         res += [this]
-    # Sort bundles after expiration time
-    return sorted(res, key=lambda x: x.expiration)
+    # Sort bundles after expiration time (inception and id as tie-breakers, to
+    # make the result independent of the order of the bundles in the document)
+    return sorted(res, key=lambda x: (x.expiration, x.inception, x.id))
